@@ -226,6 +226,10 @@ where
 pub trait GGLWEToGGSWKeyCompressedToMut {
     /// Returns a mutably-borrowed view.
     fn to_mut(&mut self) -> GGLWEToGGSWKeyCompressed<&mut [u8]>;
+
+    /// Mutable access to the seeds of the `i`-th key. A [`to_mut`](Self::to_mut) view owns a *copy*
+    /// of the seeds, so seeds produced while encrypting into a view must be stored through this accessor.
+    fn seed_mut_at(&mut self, i: usize) -> &mut Vec<[u8; 32]>;
 }
 
 impl<D: DataMut> GGLWEToGGSWKeyCompressedToMut for GGLWEToGGSWKeyCompressed<D>
@@ -236,5 +240,9 @@ where
         GGLWEToGGSWKeyCompressed {
             keys: self.keys.iter_mut().map(|c| c.to_mut()).collect(),
         }
+    }
+
+    fn seed_mut_at(&mut self, i: usize) -> &mut Vec<[u8; 32]> {
+        &mut self.keys[i].seed
     }
 }
